@@ -26,3 +26,5 @@ OBLIGATIONS = [
        stubs=['fraction_from_ellipse_center -> fresh non-negative value with recorded arguments', 'sqrt/sin/cos uninterpreted with contract axioms, floor exact']),
     ob('C04.ellipse', 'h_c04_ellipse', 'real', tus=['c04_ellipse.cc'] + TUS[1:], cases=[()], expect=['relative distance from the ellipse centre is x\'^2/a^2 + y\'^2/b^2', 'end'], bounds='all finite parameters with 0<=e<1, a>0', native=True),
 ] + [dict(o, id=o['id'].replace('C02.frame', 'C04.guard')) for o in C02.OBLIGATIONS if o['id'].startswith('C02.frame')]
+# the nodal table of a depth surface (corner defaults merged with listed points) decides the vertical extent of an area feature: same obligation as C11.merge
+OBLIGATIONS = OBLIGATIONS + [dict(o, id='C04.merge') for o in __import__('C11').OBLIGATIONS if o['id'] == 'C11.merge']
